@@ -83,8 +83,9 @@ class MieLensCalculator(object):
         self.interpolator_window_size = interpolator_window_size
         self.interpolator_degree = interpolator_degree
 
+        # (in double precision also for a single-precision lens_angle)
         quad_pts, quad_wts = gauss_legendre_pts_wts(
-            np.cos(self.lens_angle), 1.0, npts=self.quad_npts)
+            np.cos(np.float64(self.lens_angle)), 1.0, npts=self.quad_npts)
 
         # Precompute some quadrature points, mie functions that are
         # independent of rho and phi
